@@ -130,6 +130,12 @@ def lift_python():
         if isinstance(n, ast.Return):
             rel.append(ast.unparse(n))
     res["statements"] = sorted(set(rel))
+    # the tests of every `if` / `elif` / conditional expression of dateFormat, in source order
+    conds = []
+    for n in ast.walk(df):
+        if isinstance(n, (ast.If, ast.IfExp)):
+            conds.append((n.lineno, n.col_offset, ast.unparse(n.test)))
+    res["conditions"] = [c for _, _, c in sorted(conds)]
     # DT defaults in Terminal.setLemma
     sl = _find_func(term, "Terminal", "setLemma")
     dflt = None
@@ -200,6 +206,8 @@ def generate():
                "def pyNatSimplification : List Str := %s\n" % llist(py["natSimplification"]))
     out.append("/-- source text of the assignments to fmts/fmt/diffDays/sign/dateS and of the returns of Terminal.dateFormat (sorted) -/\n"
                "def pyStatements : List Str :=\n  [%s]\n" % ",\n   ".join(lstr(x) for x in py["statements"]))
+    out.append("/-- source text of the tests of every if / elif / conditional expression of Terminal.dateFormat, in source order -/\n"
+               "def pyConditions : List Str :=\n  [%s]\n" % ",\n   ".join(lstr(x) for x in py["conditions"]))
     out.append("def pyAllowedKeys : List Str := %s\n" % llist(py["allowedKeys"]))
     out.append("/-- defaults set by Terminal.setLemma for a DT -/\ndef pyDefaults : List (Str × Bool) :=\n  [%s]\n"
                % ", ".join("(%s, %s)" % (lstr(k), "true" if v else "false") for k, v in py["defaults"]))
